@@ -149,7 +149,8 @@ class ProxyWorld:
             for f, a in [("setPerBlockRewardAmount", [top_u(cfg["rate"])]), ("resume", []), ("startProduceRewards", []),
                          ("setBoostedYieldsFactors", [top_u(x) for x in (10, 3, 2, 1, 1)]),
                          ("setLockingScAddress", [self.efact]), ("setLockEpochs", [top_u(OPTS[0][0])]),
-                         ("setEnergyFactoryAddress", [self.efact])]:
+                         ("setEnergyFactoryAddress", [self.efact])] + \
+                        ([("setBoostedYieldsRewardsPercentage", [top_u(cfg["boost"])])] if cfg.get("boost") else []):
                 r = vm.call(own, fa, f, a)
                 assert r.ok, (f, r)
         # proxy
@@ -452,6 +453,11 @@ class ProxyWorld:
                 env["fact"] = (w["k"], w["L"])
             elif k == "MergeWfm":
                 w = self.wfm[new_wfm[-1]]
+                if o["dlocked"] > 0:
+                    # boosted rewards the farm locked for the caller and sent to the proxy (they stay there):
+                    # the only locked tokens minted in a merge; their nonce is the farm's lock option from now
+                    ue = (now + OPTS[0][0]) - (now + OPTS[0][0]) % EPM
+                    env["rew"] = ([n for n, e in self.unlock.items() if e == ue][0], o["dlocked"])
                 env["fmerge"] = (w["f"], w["T"])
                 env["fact"] = (w["pn"], w["P"]) if w["pt"] == LOCKED else (self.wlp[w["pn"]]["k"], self.wlp[w["pn"]]["L"])
             elif k == "IncLp":
@@ -579,7 +585,8 @@ def gen_cfg(rng):
             l.append((rng.choice([0, 1, 2]), log_amount(rng, 10 ** 16) + 10 ** 6))
         locks.append(l)
     return dict(base_first=rng.random() < 0.6, liq=[lb, lo], fee=rng.choice([0, 300, 300, 1000]),
-                rate=rng.choice([1, 5000, 5000, 10 ** 9]), epoch0=rng.choice([1, 1, 47, 200]), locks=locks)
+                rate=rng.choice([1, 5000, 5000, 10 ** 9]), epoch0=rng.choice([1, 1, 47, 200]), locks=locks,
+                boost=rng.choice([0, 0, 2500, 6000]))
 
 
 def part_amount(rng, have):
@@ -658,24 +665,24 @@ def gen_op(rng, w, stats):
             n, v = rng.choice(live_lk)
             return ["EnterFarm", u, rng.choice([1, 2]), [2, n, min(v, 10 ** 6)], []]
         roll = rng.random() * 0.90 + 0.10
-    if roll < 0.10:
-        return ["Time", rng.choice([1, 5, 20, 100]), rng.choice([0, 0, 1, 1, 2, 5, 40, 400 if rng.random() < 0.15 else 3])]
-    if roll < 0.17:
+    if roll < 0.15:
+        return ["Time", rng.choice([1, 5, 20, 100]), rng.choice([0, 1, 1, 2, 7, 7, 8, 40, 400 if rng.random() < 0.3 else 5])]
+    if roll < 0.22:
         tin = rng.choice([0, 1])
         r = s["rbase"] if tin == 0 else s["rother"]
         return ["Trade", tin, max(1, r // rng.choice([1, 2, 3, 10, 50]) + rng.randint(0, 5))]
-    if roll < 0.19:
+    if roll < 0.24:
         if rng.random() < 0.5 and my_lp:
             n, v = rng.choice(my_lp)
             return ["XferWlp", u, rng.choice([x for x in users if x != u]), n, part_amount(rng, v)]
         if my_fm:
             n, v = rng.choice(my_fm)
             return ["XferWfm", u, rng.choice([x for x in users if x != u]), n, part_amount(rng, v)]
-    if roll < 0.198:
+    if roll < 0.248:
         return rng.choice([["SetPair", OWNER, False], ["SetFarm", OWNER, rng.choice([0, 1]), False]])
     if 0.62 <= roll < 0.92 and not my_fm and (my_lp or live_lk):
         roll = 0.55                      # nothing to exit / claim / merge yet: enter a farm instead
-    want_add = roll < 0.31 or (not my_lp and not my_fm and roll < 0.6)
+    want_add = roll < 0.35 or (not my_lp and not my_fm and roll < 0.6)
     if want_add and live_lk:
         n, v = rng.choice(live_lk) if rng.random() < 0.9 or not my_lk else rng.choice(my_lk)
         cap = min(v, s["rbase"] * 1000, 10 ** 16)
